@@ -54,7 +54,7 @@ def verify(src, pid, x):
 
 
 def do_import(src, pid):
-    for x in ("a", "b", "c", "d", "e", "f", "g", "h", "i", "j", "k", "l"):
+    for x in ("a", "b", "c", "d", "e", "f", "g", "h", "i", "j", "k", "l", "m", "n"):
         if not os.path.exists(os.path.join(src, "_seed", x, "patch.diff")):
             continue
         ok, msg = verify(src, pid, x)
